@@ -66,9 +66,9 @@ struct op { int kind, obj, phrase, setting; char name[96]; char solo[CRYPT_OUTPU
 static struct op ops[400];
 static int nops;
 
-static const char *phrases[3] = { "pw", "another-phrase-of-27-bytes!", 0 /* 600 bytes */  };
-static char longphrase[601];
-static const char *settings[40];
+static const char *phrases[4] = { "pw", "another-phrase-of-27-bytes!", 0 /* 600 bytes */ , 0 /* 200 bytes */  };
+static char longphrase[601], phrase200[201];
+static const char *settings[48];
 static int nsettings, nvalid;
 
 static void (*p_setkey) (const char *);
@@ -94,7 +94,7 @@ exec_op (const struct op *o, char *res, int *isnull, int *ec)
   static const char key2[64] = { 0, 1, 1, 0, 1, 0, 0, 1, 1, 1, 0, 0, 0, 1, 1, 0, 1, 0, 1, 0, 1, 1, 0, 0, 0, 1, 0, 1, 1, 0, 0, 1,
     1, 0, 1, 1, 0, 0, 0, 1, 0, 1, 1, 0, 1, 0, 0, 1, 1, 1, 0, 1, 0, 0, 1, 0, 0, 1, 1, 0, 1, 0, 1, 1 };
   struct crypt_data *d = o->obj == 0 ? A : B;
-  const char *P = o->phrase == 2 ? longphrase : phrases[o->phrase];
+  const char *P = o->phrase == 2 ? longphrase : o->phrase == 3 ? phrase200 : phrases[o->phrase];
   const char *S = o->setting >= 0 ? settings[o->setting] : 0;
   char *r = 0;
   char out[CRYPT_GENSALT_OUTPUT_SIZE];
@@ -162,7 +162,7 @@ addop (int kind, int obj, int phrase, int setting, int request, const char *fmt,
   /* the sub-alphabet explored one level deeper: the four cheapest method representatives with phrase 0 on every object and
      entry point, the failing requests, the generators, setkey/encrypt */
   int cheap_setting = setting >= 0 && setting < 4;
-  o->core = ((kind <= K_STATIC) && phrase == 0 && (cheap_setting || setting >= nvalid)) || (kind <= K_STATIC && phrase == 2)
+  o->core = ((kind <= K_STATIC) && phrase == 0 && (cheap_setting || setting >= nvalid)) || (kind <= K_STATIC && phrase >= 2)
     || (kind == K_GENSALT && obj == 0 && (request == 1000 || request == 1003)) || kind == K_GENSALT_CRYPT || kind == K_SETKEY || kind == K_ENCRYPT;
   if (kind == K_R && setting < nvalid && setting != 3)
     o->core = 0;                /* crypt_r is kept in the sub-alphabet for one method and the failures only */
@@ -199,6 +199,25 @@ mkops (void)
   addop (K_R, 1, 2, 2, req, "crypt_r(B,600 bytes,%s)", settings[2]);
   addop (K_STATIC, 0, 2, 2, req++, "crypt(600 bytes,%s)", settings[2]);
   (void) nfail0;
+  /* results that fill most of the output field, and a 200-byte phrase on the segment-limited method: residue of a longer
+     earlier result, or of the object's initial garbage, must not show */
+  {
+    static char longsalt[330];
+    snprintf (longsalt, sizeof longsalt, "$7$2/..../....");
+    for (int i = 14; i < 300; i++)
+      longsalt[i] = A64[(i * 7 + 3) % 64];
+    longsalt[300] = 0;
+    int sl = nsettings, sb = nsettings + 1;
+    settings[nsettings++] = longsalt;
+    settings[nsettings++] = "ab............";
+    addop (K_RN, 0, 0, sl, req, "crypt_rn(A,P0,$7$ with a 286-character salt)");
+    addop (K_RN, 1, 0, sl, req, "crypt_rn(B,P0,$7$ with a 286-character salt)");
+    addop (K_STATIC, 0, 0, sl, req++, "crypt(P0,$7$ with a 286-character salt)");
+    addop (K_RN, 0, 3, sb, req, "crypt_rn(A,200 bytes,ab............)");
+    addop (K_RN, 1, 3, sb, req, "crypt_rn(B,200 bytes,ab............)");
+    addop (K_RA, 0, 3, sb, req, "crypt_ra(C,200 bytes,ab............)");
+    addop (K_STATIC, 0, 3, sb, req++, "crypt(200 bytes,ab............)");
+  }
   /* compat names */
   addop (K_XCRYPT, 0, 0, 2, 2 * 2, "xcrypt(P0,%s)", settings[2]);
   addop (K_XCRYPT, 1, 0, 1, 1 * 2, "fcrypt(P0,%s)", settings[1]);
@@ -485,6 +504,7 @@ main (int argc, char **argv)
   if (!dladdr ((void *) p_setkey, &di) || !strstr (di.dli_fname, "libxc.so"))
     vh_internal ("setkey does not resolve to the library under test");
   memset (longphrase, 'x', 600);
+  memset (phrase200, 'y', 200);
   arenaA = aligned_alloc (64, OBJSZ + 64);
   arenaB = aligned_alloc (64, OBJSZ + 64);
   A = (struct crypt_data *) arenaA;
